@@ -114,7 +114,21 @@ class C04(Check):
             js.append(dict(kind='add', n=n, m=2, same=False))
             if n <= (3 if q else 4):
                 js.append(dict(kind='span', n=n))
-        js.sort(key=lambda j: -(j['n'] ** 2 if j['kind'] in ('sort', 'span') else j['n']))
+        # scale probes: long tracks with fixed instants, symbolic arguments
+        for n in ([16, 17, 33] if q else [15, 16, 17, 31, 32, 33, 59]):
+            js.append(dict(kind='insert', n=n, fixed=True))
+            for order in ('up', 'down', 'ties'):
+                if n <= 17 or not q:
+                    js.append(dict(kind='span', n=n, fixed=order))
+            for kind in ('extract', 'gt', 'lt', 'modn'):
+                if kind != 'extract' or n <= 16 or not q:
+                    js.append(dict(kind=kind, n=n))
+            js.append(dict(kind='modpat', n=n, L=3))
+            js.append(dict(kind='remove', n=n, k=2))
+            js.append(dict(kind='add', n=n, m=n, same=True))
+        for n, m in ((1, 1), (2, 3), (3, 2)):
+            js.append(dict(kind='add', n=n, m=m, same='perm'))
+        js.sort(key=lambda j: -(j['n'] ** 2 if j['kind'] in ('sort', 'span') and not j.get('fixed') else j['n']))
         return js
 
     def patches(self, job):
@@ -173,14 +187,17 @@ class C04(Check):
             return None, dict(order=tags(tr)) if not sym else {}
 
         if kind == 'insert':
-            secs, mss = self._times(eng, inp, n, msym=(n <= 2))
-            if sym and n > 1:
+            if job.get('fixed'):
+                secs, mss = [(i * 59) // n for i in range(n)], [500 * (i % 2) for i in range(n)]      # sorted, some seconds shared by two observations
+            else:
+                secs, mss = self._times(eng, inp, n, msym=(n <= 2))
+            if sym and n > 1 and not job.get('fixed'):
                 t0 = build(n, secs, mss, feats=False)
                 ks = [key(t0.getObs(i)) for i in range(n)]
                 eng.assume(z3.And([a <= b for a, b in zip(ks, ks[1:])]))
             tr = build(n, secs, mss, feats=False)
             ns = self._arg(eng, inp, 'new_s', 0, 59)
-            nm = self._arg(eng, inp, 'new_m', 0, 999) if n <= 2 else 0
+            nm = self._arg(eng, inp, 'new_m', 0, 999) if (n <= 2 or job.get('fixed')) else 0
             new = Obs(ENUCoords(-1.0, 0.0, 0.0), ObsTime(2020, 2, 29, 23, 59, ns, nm))
             before = [tr.getObs(i) for i in range(n)]
             tr.insertObs(new)
@@ -203,9 +220,17 @@ class C04(Check):
 
         # ---- slicing family: concrete distinct instants are irrelevant; integer arguments symbolic
         secs, mss = list(range(n)), [0] * n
-        if kind == 'span':
+        if kind == 'span' and job.get('fixed'):
+            secs, mss = [(i * 59) // n for i in range(n)], [500 * (i % 2) for i in range(n)]
+            if job['fixed'] == 'down':
+                secs, mss = secs[::-1], mss[::-1]
+            elif job['fixed'] == 'ties':
+                secs, mss = [2 * (v // 2) for v in secs], [0] * n
+        elif kind == 'span':
             secs, mss = self._times(eng, inp, n)
         tr = build(n, secs, mss)
+        if kind == 'add' and job['same'] == 'perm':
+            tr.createAnalyticalFeature('g', [200.0 + i for i in range(n)])
         before = [tr.getObs(i) for i in range(n)]
         if kind == 'extract':
             i = self._arg(eng, inp, 'i', 0, n)
@@ -255,6 +280,22 @@ class C04(Check):
             m = job['m']
             from tracklib.core import Track
             t2 = Track([Obs(ENUCoords(float(n + c), float(-(n + c)), 0.5 * (n + c)), ObsTime(2020, 2, 29, 23, 59, 30 + c, 0)) for c in range(m)])
+            if job['same'] == 'perm':
+                # same feature names, created in the other order (different column layout)
+                t2.createAnalyticalFeature('g', [200.0 + n + c for c in range(m)])
+                t2.createAnalyticalFeature('f', [100.0 + n + c for c in range(m)])
+                b2 = [t2.getObs(c) for c in range(m)]
+                res = tr + t2
+                now = [res.getObs(c) for c in range(res.size())]
+                if len(now) != n + m or any(a is not b for a, b in zip(now, before + b2)):
+                    return '+ did not concatenate the observations in order', {}
+                for nm_, base in (('f', 100.0), ('g', 200.0)):
+                    if nm_ in res.getListAnalyticalFeatures():
+                        for c in range(n + m):
+                            if res.getObsAnalyticalFeature(nm_, c) != base + c:
+                                return '+ of tracks listing the same features in another order: observation %d reads %s = %r, its own value is %r' % (
+                                    c, nm_, res.getObsAnalyticalFeature(nm_, c), base + c), {}
+                return None, dict(size=res.size())
             if m > 0:
                 t2.createAnalyticalFeature('f' if job['same'] else 'g', [100.0 + n + c for c in range(m)])
             same = job['same'] and n > 0 and m > 0
@@ -281,9 +322,9 @@ class C04(Check):
             return None, dict(size=res.size())
         if kind == 'span':
             s1 = self._arg(eng, inp, 'lo_s', 0, 59)
-            m1 = self._arg(eng, inp, 'lo_m', 0, 999) if n <= 3 else 0
+            m1 = self._arg(eng, inp, 'lo_m', 0, 999) if (n <= 3 or job.get('fixed')) else 0
             s2 = self._arg(eng, inp, 'hi_s', 0, 59)
-            m2 = self._arg(eng, inp, 'hi_m', 0, 999) if n <= 3 else 0
+            m2 = self._arg(eng, inp, 'hi_m', 0, 999) if (n <= 3 or job.get('fixed')) else 0
             t1 = ObsTime(2020, 2, 29, 23, 59, s1, m1)
             t2 = ObsTime(2020, 2, 29, 23, 59, s2, m2)
             res = tr.extractSpanTime(t1, t2)
